@@ -103,6 +103,8 @@ class Interp:
     def __init__(self, facts, builtins=None, max_depth=12, max_steps=200000, unknown_call=None):
         self.f = facts
         self.builtins = builtins or {}
+        self.opaque_conversions = False  # `.into()` / `From::from` of an Opaque value is the value itself (conversions are abstracted)
+        self.display_hook = None        # callable(value) -> text | None: Display of crate types the caller models
         self.max_depth = max_depth
         self.steps = 0
         self.max_steps = max_steps
@@ -204,6 +206,10 @@ class Interp:
                 if isinstance(v, tuple) and len(v) == 2 and v[0] == "__some":
                     return self.bind(pat["subs"][0], v[1], env)
                 raise Unsupported("Some pattern on non-option")
+            if d in ("core::result::Result::Ok", "core::result::Result::Err") and isinstance(v, tuple) and len(v) == 2 and v[0] in ("Ok", "Err"):
+                if v[0] != d.rsplit("::", 1)[-1]:
+                    return False
+                return self.bind(pat["subs"][0], v[1], env) if pat.get("subs") else True
             if not isinstance(v, Var):
                 raise Unsupported("variant pattern %s on %r" % (d, v))
             if v.d != d:
@@ -500,6 +506,10 @@ class Interp:
         if k == "index":
             b = self.ev(e["base"], env, depth)
             i = self.ev(e["idx"], env, depth)
+            if isinstance(b, (list, str)) and isinstance(i, int) and not isinstance(i, bool):
+                if not (0 <= i < len(b)):
+                    raise Diverged("index %d out of range (len %d)" % (i, len(b)))      # a panic in Rust
+                return b[i]
             try:
                 return b[i]
             except Exception:
@@ -543,6 +553,10 @@ class Interp:
             return str(v)
         if self.free_opaque and isinstance(v, Opaque):
             return "<%s>" % v.tag
+        if self.display_hook is not None:
+            r = self.display_hook(v)
+            if r is not None:
+                return r
         raise Unsupported("Display of %r" % (v,))
 
     def call(self, e, env, depth):
@@ -554,6 +568,15 @@ class Interp:
                 recv = [self.ev(e["recv"], env, depth)] if e.get("k") == "mcall" else []
                 args = [self.ev(a, env, depth) for a in e.get("args") or []]
                 return self.builtins[key](self, recv + args)
+        # vec![a, b, ..] : box_assume_init_into_vec_unsafe(write_box_via_move(Box::new_uninit(), [a, b, ..]))
+        if decl == "alloc::boxed::box_assume_init_into_vec_unsafe" and "vec" in (e.get("mac") or []):
+            inner = e["args"][0]
+            if inner.get("k") == "call" and inner.get("callee") == "alloc::intrinsics::write_box_via_move" and inner["args"][1].get("k") == "array":
+                return [self.ev(x, env, depth) for x in inner["args"][1]["es"]]
+        if decl in ("alloc::slice::<impl [T]>::into_vec",) and "vec" in (e.get("mac") or []):
+            for x in walk(e):
+                if x.get("k") == "array":
+                    return [self.ev(y, env, depth) for y in x["es"]]
         if c in ("alloc::vec::Vec::<T>::new", "alloc::vec::Vec::<T>::with_capacity") or decl in ("alloc::vec::Vec::<T>::new", "alloc::vec::Vec::<T>::with_capacity"):
             return []
         # ---- a small model of str / String ------------------------------------------------------------------------
@@ -590,6 +613,12 @@ class Interp:
                     return v
                 if name == "chars" and not args:
                     return [Ch(ch) for ch in v]
+                if name == "parse" and not args:
+                    ty = self.f.ty(e.get("ty")) or ""
+                    if any(("Result<%s," % t) in ty for t in ("usize", "u8", "u16", "u32", "u64", "i32", "i64", "isize")):
+                        ok_ = v.isascii() and v.isdigit()
+                        return ("Ok", int(v)) if ok_ else ("Err", Opaque("ParseIntError"))
+                    raise Unsupported("parse::<%s>" % ty)
                 if name == "bytes" and not args:
                     return list(v.encode("utf-8"))
                 if name == "char_indices" and not args:
@@ -740,6 +769,17 @@ class Interp:
                 return self.apply_closure(clo, [v[1]], depth + 1) if is_some else None
             if name == "map":
                 return ("__some", self.apply_closure(clo, [v[1]], depth + 1)) if is_some else None
+        if e.get("k") == "mcall" and decl.startswith("core::bool::<impl bool>::") and name in ("then", "then_some"):
+            b = self._bool(self.ev(e["recv"], env, depth))
+            if name == "then_some":
+                x = self.ev(e["args"][0], env, depth)      # evaluated eagerly, as in Rust
+                return ("__some", x) if b else None
+            clo = self.ev(e["args"][0], env, depth)
+            return ("__some", self.apply_closure(clo, [], depth + 1)) if b else None
+        if decl in ("core::convert::Into::into", "core::convert::From::from") and e.get("k") == "call" and self.opaque_conversions:
+            v = self.ev(e["args"][0], env, depth)
+            if isinstance(v, Opaque):
+                return v
         if e.get("k") == "mcall" and name in ITER_BUILTINS:
             recv = self.ev(e["recv"], env, depth)
             if isinstance(recv, (str, list)):
@@ -753,7 +793,7 @@ class Interp:
                 return self.display(v)
             if self.free_opaque and isinstance(v, Opaque):
                 return "<%s>" % v.tag
-            raise Unsupported("to_string of %r" % (v,))
+            return self.display(v)
         if e.get("k") == "mcall" and name in ("as_ref", "deref", "borrow", "clone", "to_owned", "as_str", "into", "unwrap", "as_mut", "by_ref") and not e.get("args"):
             v = self.ev(e["recv"], env, depth)
             if name == "unwrap":
@@ -763,6 +803,8 @@ class Interp:
                     return v[1]
                 if isinstance(v, tuple) and len(v) == 2 and v[0] == "Err":
                     raise Diverged("unwrap on Err")
+                return v
+            if name == "into" and self.opaque_conversions and isinstance(v, Opaque):
                 return v
             if name == "into":
                 tgt = c
